@@ -10,6 +10,7 @@ import (
 	"iter"
 	"maps"
 	"os"
+	"path/filepath"
 	"slices"
 	"strings"
 	"sync"
@@ -106,12 +107,39 @@ func (s *ManagedServer) saveToFile() error {
 	}
 	b = append(b, '\n') // b has plenty of unused capacity.
 
-	if err = os.WriteFile(s.path, b, 0644); err != nil {
+	if err = writeFileAtomic(s.path, b, 0644); err != nil {
 		return err
 	}
 
 	s.cachedContent = unsafe.String(unsafe.SliceData(b), len(b))
 	return nil
+}
+
+// writeFileAtomic writes data to a temporary file next to path and renames it over path,
+// so that a crash or write error at any point leaves either the old or the new content.
+func writeFileAtomic(path string, data []byte, perm os.FileMode) error {
+	f, err := os.CreateTemp(filepath.Dir(path), filepath.Base(path)+".*.tmp")
+	if err != nil {
+		return err
+	}
+	tmp := f.Name()
+	_, err = f.Write(data)
+	if err == nil {
+		err = f.Chmod(perm)
+	}
+	if err == nil {
+		err = f.Sync()
+	}
+	if cerr := f.Close(); err == nil {
+		err = cerr
+	}
+	if err == nil {
+		err = os.Rename(tmp, path)
+	}
+	if err != nil {
+		_ = os.Remove(tmp)
+	}
+	return err
 }
 
 func (s *ManagedServer) dequeueSave(ctx context.Context) {
